@@ -11,7 +11,7 @@ META = dict(
     technique='symbolic execution (sx proxies) of the real ResponseFuture/HostConnection/Connection code over solver-enumerated event and decision sequences + z3 validity per path',
     bounds=dict(quick='2-3 hosts, <= 2 speculative executions, <= 2 policy consultations, responses {rows, read-timeout error, syntax error}, histories of <= 4 events then drain',
                 thorough='3 hosts, <= 2 speculative executions, <= 3 policy consultations, + unavailable/overloaded responses, histories of <= 6 events then drain'),
-    assumptions=['each stream is answered at most once by the server'],
+    assumptions=['race jobs: a timer (client-side timeout, speculative execution) may fire on a thread other than the event loop\'s, so it can overlap the handling of a response - Connection.create_timer does not promise otherwise and the driver itself guards _on_timeout with the connection lock; with the bundled reactors timers run on the event-loop thread, for which these schedules are an over-approximation; two responses are never handled at the same time', 'each stream is answered at most once by the server'],
     stubs=['transport/timers/executor: harness kit', 'codec: identity', 'retry policy: decision oracle (every decision explored)'],
     outside=['callbacks that raise', 'pre-emption inside lock-free regions other than the sync points of add_callback/add_errback', 'paging (C18), re-prepare (C19)'],
 )
